@@ -1,9 +1,10 @@
 (* Correspondence judge for C17: one case = one request sent to the real nsqadmin
    (in-process, real listener or the real router with a synthetic RemoteAddr; or the real
-   apps/nsqadmin binary started with command-line flags and / or a --config file) in front
-   of recording stub nsqd / nsqlookupd upstreams.  No proofs here. *)
+   apps/nsqadmin binary started with command-line flags and / or a --config file; or an
+   in-process nsqadmin whose upstream addresses have been changed at run time by a history of
+   /config requests) in front of recording stub nsqd / nsqlookupd upstreams.  No proofs here. *)
 From Coq Require Import String List NArith Bool.
-From NSQV Require Import model.Judge model.Names gen.AdminRoutes gen.AdminOptTable model.Admin model.AdminCfg.
+From NSQV Require Import model.Judge model.Names gen.AdminRoutes gen.AdminOptTable model.Admin model.AdminCfg model.AdminReconf.
 Import ListNotations.
 Open Scope list_scope.
 Open Scope N_scope.
@@ -161,14 +162,21 @@ Definition agree_r (c : rcase) : bool :=
 
 (* ---- requests to an nsqadmin started from a launch (flags and / or config file) *)
 
+(* one /config request of a history, with what the implementation did: its status, and the
+   nsqlookupd list read back (GET /config/nsqlookupd_http_addresses from an allowed address)
+   after it *)
+Record ostep := mkOStep { os_req : cfgreq; os_status : N; os_after : list bytes }.
+
 Inductive case :=
 | CReq (r : rcase)
   (* [r]'s c_admins / c_header / c_cidr are placeholders; its c_world lists EVERY stub with its
      answer: the configuration is what the launch says *)
-| CLaunch (l : launch) (cp : cidr_table) (r : rcase).
-
-Definition pick {A : Type} (dflt : A) (univ : list (bytes * A)) (addrs : list bytes) : list (bytes * A) :=
-  map (fun a => (a, match assoc_bytes a univ with Some x => x | None => dflt end)) addrs.
+| CLaunch (l : launch) (cp : cidr_table) (r : rcase)
+  (* nsqadmin started with the nsqlookupd list [l0] and the nsqd list [n0] (admin list, header
+     name and CIDR as [r] states them); then the /config requests [steps], in order; then the
+     request [r], whose c_world lists EVERY stub with its answer: which of them are in force
+     when [r] arrives is worked out from the history *)
+| CReconf (l0 n0 : list bytes) (steps : list ostep) (r : rcase).
 
 Definition with_cfg (r : rcase) (admins : list bytes) (header : bytes) (cd : option cidr)
                     (lookupds nsqds : list bytes) : rcase :=
@@ -183,6 +191,37 @@ Definition with_cfg (r : rcase) (admins : list bytes) (header : bytes) (cd : opt
    (AdminCfg.spec_config: command line over config file over default; it does not look at the
    tables regenerated from the source).  A launch that is not a valid configuration (no
    address list, both, unparsable CIDR) promises nothing *)
+(* ---- a history of /config requests, on the observation alone.  "/config can be written only
+   from the allowed CIDR": a request from outside is answered 403 (400 for an address that is no
+   address) and leaves the list as it was; what an operator inside has written with a PUT that
+   was answered 200 is what /config holds from then on -- and is the list of nsqlookupds the
+   actions that follow are about ("every relevant nsqd and nsqlookupd") *)
+Definition spec_allowed (cd : option cidr) (remote : option ipaddr) : bool :=
+  match cd, remote with
+  | None, _ => true
+  | Some c, Some ip => spec_inside c ip
+  | Some _, None => false
+  end.
+
+Definition is_lookupd_opt (o : optname) : bool := match o with OptLookupdAddrs => true | _ => false end.
+
+Fixpoint monitor_steps (cd : option cidr) (lk : list bytes) (steps : list ostep) : bool * list bytes :=
+  match steps with
+  | [] => (true, lk)
+  | s :: rest =>
+      let q := os_req s in
+      let allowed := spec_allowed cd (q_remote q) in
+      let written := q_put q && is_lookupd_opt (q_opt q) && (os_status s =? 200) in
+      let lk' := if written then (match q_body q with PutValid => q_value q | _ => os_after s end) else lk in
+      let ok :=
+        (if allowed then negb (os_status s =? 403)
+         else negb (os_status s =? 200) &&
+              match cd, q_remote q with Some _, Some _ => os_status s =? 403 | _, _ => true end) &&
+        list_eqb bytes_eqb (os_after s) lk' in
+      let '(b, l) := monitor_steps cd lk' rest in
+      (ok && b, l)
+  end.
+
 Definition monitor (c : case) : bool :=
   match c with
   | CReq r => monitor_r r
@@ -192,6 +231,21 @@ Definition monitor (c : case) : bool :=
       | Some cfg => monitor_r (with_cfg r (cf_admins cfg) (cf_header cfg) (cf_cidr cfg) (rc_lookupds s) (rc_nsqds s))
       | None => true
       end
+  | CReconf l0 n0 steps r =>
+      let '(ok, lk) := monitor_steps (c_cidr r) l0 steps in
+      ok && monitor_r (with_cfg r (c_admins r) (c_header r) (c_cidr r) lk n0)
+  end.
+
+(* the model of the history: doConfig's steps on every request, AdminReconf.apply_cfgreq *)
+Fixpoint agree_steps (cfg : acfg) (ad : addrs) (steps : list ostep) : bool * addrs :=
+  match steps with
+  | [] => (true, ad)
+  | s :: rest =>
+      let o := cfgreq_outcome cfg plain_routes (os_req s) in
+      let ad' := apply_cfgreq cfg plain_routes ad (os_req s) in
+      let ok := (o_status o =? os_status s) && list_eqb bytes_eqb (os_after s) (ad_lookupds ad') in
+      let '(b, a) := agree_steps cfg ad' rest in
+      (ok && b, a)
   end.
 
 (* the model: options.Resolve over the regenerated struct tags / flag set / defaults *)
@@ -203,6 +257,9 @@ Definition agree (c : case) : bool :=
       | Some (cfg, rc) => agree_r (with_cfg r (cf_admins cfg) (cf_header cfg) (cf_cidr cfg) (rc_lookupds rc) (rc_nsqds rc))
       | None => (r_status r =? 0) && match r_calls r with [] => true | _ => false end
       end
+  | CReconf l0 n0 steps r =>
+      let '(ok, ad) := agree_steps (mkCfg (c_admins r) (c_header r) (c_cidr r)) (mkAddrs l0 n0) steps in
+      ok && agree_r (with_cfg r (c_admins r) (c_header r) (c_cidr r) (ad_lookupds ad) (ad_nsqds ad))
   end.
 
 Definition judge (c : case) : N := verdict (agree c) (monitor c).
